@@ -37,13 +37,14 @@ class JointDegreeCover(JointDegree):
         # iterate each column of the jds and record the index if all zeros
         indxs = [i for i, top in enumerate(zip(*jds)) if not any(top)]
 
-        # use the indexes of the zero columns to remove
-        for i in indxs:
+        # use the indexes of the zero columns to remove, highest index first
+        # so that the remaining indexes stay valid while the lists shrink
+        for i in reversed(indxs):
             for jd in jds:
                 del jd[i]
 
-        # convert jds to jdd
-        self.convert_jds_to_jdd(jds)
+        # convert jds to jdd (joint degrees must be hashable)
+        self.convert_jds_to_jdd([tuple(jd) for jd in jds])
 
     @property
     def cover(self) -> list:
